@@ -678,11 +678,14 @@ func genCid(c *Ctx) {
 			}
 		}
 	}
-	// sealed tokens of particular sizes (around 2^16 and 2^20 bytes, padded through a metadata string), alone
+	// sealed tokens of particular sizes (around 2^16, 2^20, 2^22 and 2^23 bytes, padded through a metadata string), alone
 	// and followed by one more byte: accepted / refused by every sealed entry point, and under which CID
 	keys := detKeys(c.Seed+1301, 1)
-	for _, target := range []int{1 << 16, 1 << 20} {
+	for _, target := range []int{1 << 16, 1 << 20, 1 << 22, 1 << 23} {
 		for _, delta := range []int{-1, 0, 1} {
+			if target > 1<<20 && delta != 0 && !c.Thorough() {
+				continue // (the larger sizes: only the exact one in the quick tier)
+			}
 			want := target + delta
 			pad := want - 300
 			var sealed []byte
